@@ -377,13 +377,20 @@ class Client(base_client.BaseClient):
         namespace = namespace or '/'
         if not self.connected and namespace not in self.namespaces:
             return
+        reconnecting = not self.connected and \
+            self in base_client.reconnecting_clients
         try:
             self._trigger_event('disconnect', namespace,
                                 self.reason.SERVER_DISCONNECT)
         finally:
             # a failing disconnect handler must not keep the namespace
             # listed as connected
-            self._trigger_event('__disconnect_final', namespace)
+            if reconnecting:
+                # the reconnection effort in progress stops, and reports the
+                # end of the connection when it does
+                self._reconnect_abort.set()
+            else:
+                self._trigger_event('__disconnect_final', namespace)
             if namespace in self.namespaces:
                 del self.namespaces[namespace]
             if not self.namespaces:
